@@ -390,8 +390,11 @@ class FuncAnalysis:
         for r in self._g(roots):
             self.sum.mut.add(r)
             self.sum.mut_why.setdefault(r[0], how)
-        for r in self._g(av.ud):
-            self.sum.umut.add(r)
+        if not (container and av.kind in ("list", "obj", "seq")):
+            # a container operation (append / extend / item rebinding) on a list changes that list object only: what its
+            # elements may alias (ud) is not written to
+            for r in self._g(av.ud):
+                self.sum.umut.add(r)
         if av.kind == "unk":
             for r in self._g(av.dp):
                 pass  # dp of unknown-kind values are still definite aliases (e.g. un-annotated parameter)
